@@ -145,7 +145,12 @@ class Arm:
             (self.cells if c["in_loop"] else self.pre_cells).append(rec)
 
     def cell(self, arr, rn, cn="cur"):
+        """the net effect of the iteration on a cell: the value it holds after the last store (a load of a cell stored earlier in the iteration
+        reads the stored value), relative to its content before the first one"""
         hit = [c for c in self.cells if c["key"] == (arr, rn, cn)]
+        if len(hit) > 1:
+            k = max((n for n, c in enumerate(hit) if c["cur"] is None), default=0)      # (a plain store forgets the content)
+            return dict(hit[-1], cur=hit[k]["cur"])
         return hit[-1] if hit else None
 
     def value(self, arr, rn, cn="cur"):
@@ -259,6 +264,20 @@ def run_arm(ctx, kind, cfg, which, carry=None, generic=(), generic_prefix=None, 
         raise
     arm = Arm(ev, canon)
     cache[key] = arm
+    if ev.facts.assumed_arrays:
+        # an in-place update (`x += y` through another name / inside a helper) of a value an earlier send left behind was followed because that
+        # value starts as an array: by induction over sends it must stay one, i.e. every kind of send must leave an array there
+        try:
+            others = [] if which == "pos" else [a_ for a_ in _generic_arms(ctx, kind, cfg) if a_.canon.which == "pos"]
+            for slot in sorted(ev.facts.assumed_arrays):
+                for a_ in [arm] + others:
+                    fv = a_.final(slot)
+                    if fv is not None and a_.lev.is_array(fv) is not True:
+                        raise Unsupported(f"{qual}: `{slot}` is updated in place by one send but another send leaves there a value that is not "
+                                          f"provably an array: {fv!r}"[:300])
+        except Unsupported as e:
+            cache[key] = e
+            raise
     return arm
 
 
@@ -307,7 +326,7 @@ def cx_configs():
 
 
 def _all_generator_loops(fn):
-    return [n for n in walk_no_nested(fn) if isinstance(n, ast.While) and G._has_yield(n)]
+    return [n for n in walk_no_nested(fn) if isinstance(n, (ast.While, ast.For)) and G._has_yield(n)]
 
 
 # ---------------------------------------------------------------------------------------------------------------- carried state
@@ -1139,7 +1158,10 @@ def r2c_complex_path(ctx):
                 ok = v1_.subs(hold).equals(v0_)
                 ctx.check(ok, f"_solve_complex_unc ({tag}): the zero-order-hold {what} step is the first-order one with the force held (f1 := f0)",
                           b.where(*gk), None if ok else {"order 0": repr(v0_), "order 1 with f1:=f0": repr(v1_.subs(hold)) if _good(v1_) else None})
-    ctx.check(nconf == 12, f"complex path evaluated in {nconf} of 12 configurations", None, nontrivial=False)
+    if nconf == 12:
+        ctx.ok(f"complex path evaluated in {nconf} of 12 configurations", None, nontrivial=False)
+    else:
+        ctx.error(f"complex path evaluated in {nconf} of 12 configurations", None)      # (the configurations that were not evaluated said why)
 
 
 class F2xCanon:
